@@ -91,6 +91,22 @@ CATALOGUE = [
       [(G, "                if v.gradient_index in self._fixed_gradient_indices:\n                    continue\n", "", 1)], "C06-d"),
     V("update-guard-flag-twin", ["C06", "C03", "C12"], "twin",
       [(G, "                if v.gradient_index in self._fixed_gradient_indices:\n                    continue\n", "                if v.fixed:\n                    continue\n", 1)]),
+    V("optimize-locals-twin", ["C03", "C04", "C06", "C07", "C12", "C15"], "twin",
+      [(G, "            dx = spsolve(self._hessian, -self._gradient)  # pylint: disable=invalid-unary-operand-type",
+        "            rhs = -self._gradient\n            dx = spsolve(self._hessian.tocsr(), rhs)", 1),
+       (G, "                v.pose += dx[v.gradient_index: v.gradient_index + v.pose.COMPACT_DIMENSIONALITY]",
+        "                idx = v.gradient_index\n                v.pose += dx[idx: idx + v.pose.COMPACT_DIMENSIONALITY]", 1),
+       (G, "        self._fixed_gradient_indices = {v.gradient_index for v in self._vertices if v.fixed}",
+        "        fixed_indices = set()\n        for v in self._vertices:\n            if v.fixed:\n                fixed_indices.add(v.gradient_index)\n        self._fixed_gradient_indices = fixed_indices", 1)]),
+    V("optimize-verbose-helper-twin", ["C12", "C15"], "twin",
+      [(G, "                if verbose:\n                    print(\"{:9d} {:20.4f} {:18.6f}\".format(i, self._chi2, -rel_diff))",
+        "                if verbose:\n                    _print_progress(i, self._chi2, -rel_diff)", 1),
+       (G, "class OptimizationResult:", "def _print_progress(i, chi2, rel_diff):\n    print(\"{:9d} {:20.4f} {:18.6f}\".format(i, chi2, rel_diff))\n\n\nclass OptimizationResult:", 1)]),
+    V("optimize-converged-flag-twin", ["C12", "C04", "C07", "C08"], "twin",
+      [(G, "                if self._chi2 <= chi2_prev and rel_diff < tol:", "                has_converged = rel_diff < tol and chi2_prev >= self._chi2\n                if has_converged:", 1)]),
+    V("optimize-iteration-alias-twin", ["C12"], "twin",
+      [(G, "            ret.iteration_results.append(OptimizationResult.IterationResult())", "            this_iteration = OptimizationResult.IterationResult()\n            ret.iteration_results.append(this_iteration)", 1),
+       (G, "            ret.iteration_results[-1].solve_duration_s = time.time() - solve_start_time", "            this_iteration.solve_duration_s = time.time() - solve_start_time", 1)]),
     V("fix-first-unconditional", ["C06"], "break", [(G, "        if fix_first_pose:\n            self._vertices[0].fixed = True", "        self._vertices[0].fixed = True", 1)], "C06-a"),
     V("fixed-set-stale", ["C06"], "break",
       [(G, "        self._fixed_gradient_indices = {v.gradient_index for v in self._vertices if v.fixed}",
